@@ -112,7 +112,89 @@ Proof. intros {vars} Hd Hpath. %s
   try reflexivity; exfalso; nra. Qed.""" % (P, A, V, script),
         imports=_IMPORTS, expect_structure={"shape": [1], "dtype": "bool", "data": [True]}))
 
-    return ks
+    return ks + _list_kernels()
+
+
+# list-level ties: Polyline.nearest at fixed small sizes, symbolic vertices and queries, one kernel per scenario
+# (which segment wins, whether t is clamped); square roots kept as atoms
+_LIMPORTS = [("PW.model", "M_polyline_base"), ("PW.model", "M_segment"), ("PW.model", "M_polyline_nearest"),
+            ("PW.proofs", "P_vec"), ("PW.proofs", "P_polyline_tie")]
+def _seg_exprs(k, q):
+    a = ["v%d" % (3 * k + j) for j in range(3)]
+    b = ["v%d" % (3 * k + 3 + j) for j in range(3)]
+    p = ["p%d" % (3 * q + j) for j in range(3)]
+    d = " + ".join("(%s - %s) * (%s - %s)" % (b[j], a[j], b[j], a[j]) for j in range(3))
+    n = " + ".join("(%s - %s) * (%s - %s)" % (p[j], a[j], b[j], a[j]) for j in range(3))
+    return n, d
+
+
+def _near_kernel(name, verts, queries, idx, t_concrete=None):
+    from polliwog import Polyline
+    nseg, nq = len(verts) - 1, len(queries)
+    V = lambda i: "(V3 v%d v%d v%d)" % (3 * i, 3 * i + 1, 3 * i + 2)
+    P = lambda i: "(V3 p%d p%d p%d)" % (3 * i, 3 * i + 1, 3 * i + 2)
+    PL = "(MkPolyline [%s] false)" % "; ".join(V(i) for i in range(len(verts)))
+    hyps = " -> ".join("%s <> 0" % _seg_exprs(k, 0)[1] for k in range(nseg))
+    sets, reps = [], []
+    for q in range(nq):
+        for k in range(nseg):
+            n, d = _seg_exprs(k, q)
+            sets.append("set (tm%d_%d := (%s) / (%s)) in *." % (q, k, n, d))
+            reps.append("progress (replace (n / d) with tm%d_%d in * by (unfold tm%d_%d; field; first [assumption | intro; lra]))" % (q, k, q, k))
+    first = "first [%s]" % "\n      | ".join(reps)
+    single = nq == 1
+    call = (lambda v, p: Polyline(v).nearest(p if not single else p[0], ret_segment_indices=True, ret_distances=True, ret_t_values=True))
+    # flattened result: points, (indices concrete), distances, t values
+    model = ("rmap (fun rs => flat_map (fun r => vlist (n_pt r)) rs ++ map n_d rs ++ map n_t rs) (nearest_many ROps %s [%s])"
+             % (PL, "; ".join(P(q) for q in range(nq))))
+    idxs = "[%s]" % "; ".join("%d%%nat" % i for i in idx)
+    lemma = """Lemma {T}_ok : forall {vars} : R, %s -> {T}_path ROps {vars} ->
+  %s = Ok ({T} ROps {vars}%s) /\\
+  rmap (map n_idx) (nearest_many ROps %s [%s]) = Ok %s.
+Proof. intros {vars} %s Hpath. unfold {T}_path in Hpath; rops. path_facts Hpath.
+  unfold {T}.
+  cbv [nearest_many nearest_one cons_res hits seg_hit_of pl_segments pv pclosed zip app map flat_map closest_point closest_t clip01
+       nmin nmax seg_vector amin_by amin_step h_d h_t h_pt n_pt n_d n_t n_idx rmap fst snd
+       vnorm vnorm2 vadd vsub vscale vdot vlist vx vy vz n0 n1]; rops.
+  repeat match goal with |- context [Reqb ?a 0] => destruct (Reqb_spec a 0); [contradiction|] end.
+  %s
+  repeat match goal with
+  | H : context [?n / ?d] |- _ => %s
+  | |- context [?n / ?d] => %s
+  end.
+  clearbody %s.
+  repeat match goal with
+  | |- context [Rleb ?a 0] => destruct (Rleb_spec a 0); try (exfalso; lra)
+  | |- context [Rleb ?a 1] => destruct (Rleb_spec a 1); try (exfalso; lra)
+  end.
+  all: repeat match goal with
+  | H1 : ?t <= 0, H2 : 0 <= ?t |- _ => is_var t; assert (t = 0) by lra; subst t
+  end.
+  all: sqrt_atoms.
+  all: repeat match goal with
+  | |- context [Rleb ?a ?b] => destruct (Rleb_spec a b); try (exfalso; lra)
+  | |- context [Rltb ?a ?b] => destruct (Rltb_spec a b); try (exfalso; lra)
+  end.
+  all: split; [f_equal; list_eq ltac:(first [reflexivity | ring | lra]) | reflexivity]. Qed.""" % (
+        hyps, model, "" if t_concrete is None else " ++ [%d]" % t_concrete, PL, "; ".join(P(q) for q in range(nq)), idxs,
+        " ".join("Hd%d" % k for k in range(nseg)), "\n  ".join(sets), first, first,
+        " ".join("tm%d_%d" % (q, k) for q in range(nq) for k in range(nseg)))
+    if single:
+        st = {"tuple": [{"shape": [3], "data": ["e"] * 3}, idx[0], "e", "e" if t_concrete is None else t_concrete]}
+    else:
+        st = {"tuple": [{"shape": [nq, 3], "data": ["e"] * (3 * nq)}, {"shape": [nq], "dtype": "int64", "data": idx},
+                        {"shape": [nq], "data": ["e"] * nq}, {"shape": [nq], "data": ["e"] * nq}]}
+    return Kernel(name, {"v": verts, "p": queries}, call, lemma, imports=_LIMPORTS, expect_structure=st, timeout=120)
+
+
+def _list_kernels():
+    VS = [[0.0, 0.0, 0.0], [2.0, 0.0, 0.0], [2.0, 2.0, 0.5]]
+    return [
+        _near_kernel("nearest_second_inside", VS, [[2.5, 1.0, 0.25]], [1]),
+        _near_kernel("nearest_first_inside", VS, [[1.0, 0.5, 0.25]], [0]),
+        _near_kernel("nearest_first_clamped", VS, [[-1.0, 0.5, 0.0]], [0], t_concrete=0),
+        _near_kernel("nearest_two_queries", VS, [[1.0, 0.5, 0.25], [2.5, 1.0, 0.25]], [0, 1]),
+    ]
 
 
 # ---------------------------------------------------------------------------------------------------------
